@@ -115,7 +115,7 @@ def main(chk):
         for fam, prog, eout, erepr in constructs(c, truthy, bmark, insp):
             cases.append((fam, c, prog + "\n", eout, erepr))
     # seeded random compositions of conditions
-    n = 150 if chk.tier == "quick" else 1500
+    n = 150 if chk.tier == "quick" else 6000
     for _ in range(n):
         a, b, c3 = (chk.rng.choice(POOL) for _ in range(3))
         op1, op2 = chk.rng.choice(["&&", "||"]), chk.rng.choice(["&&", "||"])
